@@ -654,6 +654,120 @@ def waiting_caller_unit(M, P):
     return h
 
 
+# ------------------------------------------------------------------ (f) a failed set-up, then the loop reports the loss of its socket
+def late_loss_unit(M):
+    """the real SecureHomeKitConnection._connect_once fails (network model of harness/c11.py); afterwards the event loop
+    delivers connection_lost for the socket the controller closed.  An authentication failure has ended the connector by
+    then: nothing may start another one (that would retry without any back-off, for ever)"""
+    from . import c11
+
+    def h(ex):
+        out = ex.choice("outcome", [o for o in c11.OUTCOMES if o != "ok"])
+        net = c11.Net()
+        with c11.Env(M, net) as env:
+            conn = c11.new_conn(M, env)
+            conn._connector = c11.FakeTask("running")
+            r = c11.attempt(M, env, conn, out)
+            if r[0] != "raised":  # http-400-at-M3: post_tlv closes the socket and still decodes the reply (see harness/c11.py)
+                return ex.observe("set-up did not fail")
+            cls = getattr(X, out, None)
+            ends = isinstance(cls, type) and issubclass(cls, X.AuthenticationError)
+            # _reconnect re-raises AuthenticationError (the connector task is finished), everything else is retried by it
+            conn._connector = c11.FakeTask("finished-auth-error" if ends else "running")
+            before = len(env.tasks)
+            for t in list(net.all):
+                t.deliver_lost()
+            ex.tag("auth-failure" if ends else "retried-failure")
+            ex.require(len(env.tasks) == before, "the loss of a socket that a failed set-up closed does not start another connector (%s)"
+                       % ("authentication failure ended the retries" if ends else "the running connector retries with back-off"))
+        return ex.observe([out, len(env.tasks)])
+    return h
+
+
+# ------------------------------------------------------------------ (g) which addresses an attempt tries
+ADDRS3 = ["10.0.0.1", "10.0.0.2", "10.0.0.3"]
+SUBSETS = [[0], [1], [0, 1], [1, 0], [0, 2], [0, 1, 2], [2, 1, 0]]
+
+
+def host_refresh_unit(M):
+    """real SecureHomeKitConnection._connect_once: the advertised address list replaces the stored one whenever it differs (and
+    then clears the exclusions); every address that is advertised and not currently excluded is handed to the connection attempt"""
+    from . import c11
+
+    def h(ex):
+        stored = [ADDRS3[i] for i in ex.choice("stored_hosts", SUBSETS)]
+        adv = ex.choice("advertised", ["no-description"] + SUBSETS)
+        excluded = [a for i, a in enumerate(ADDRS3) if ex.fresh_bool("excluded%d" % i)]
+        net = c11.Net()
+        with c11.Env(M, net) as env:
+            conn = c11.new_conn(M, env)
+            conn.hosts = list(stored)
+            conn._pair_verify_failed_hosts = {M._normalize_host(a) for a in excluded if a in stored}
+            if adv != "no-description":
+                advertised = [ADDRS3[i] for i in adv]
+
+                class Desc:
+                    addresses, address, port = list(advertised), advertised[0], 80
+
+                class Owner:
+                    name, description = "owner", Desc()
+
+                    async def connection_made(self, secure):
+                        return None
+
+                conn.owner = Owner()
+            else:
+                advertised = None
+            env.tried = None
+            r = c11.attempt(M, env, conn, "ok")
+            ex.require(r[0] == "ok" and env.tried is not None, "(harness) the attempt runs")
+            changed = advertised is not None and set(advertised) != set(stored)
+            current = advertised if changed else stored
+            marked = set() if changed else {a for a in excluded if a in stored}
+            want = [a for a in current if a not in marked] or list(current)
+            if changed:
+                ex.tag("list-changed")
+                ex.require(list(conn.hosts) == advertised, "a changed advertised address list replaces the stored one")
+            ex.require(env.tried == want, "the attempt tries every current address that is not excluded (all of them when all are excluded or the list changed)")
+            ex.require(all(a in env.tried for a in current if a not in marked), "no advertised address is left out of the attempt")
+        return ex.observe(env.tried)
+    return h
+
+
+# ------------------------------------------------------------------ (h) a zeroconf update for the pairing
+def description_update_unit(M, P):
+    """IpPairing._async_description_update hastens a reconnect - but never after shutdown"""
+    def h(ex):
+        shutdown = ex.fresh_bool("shutdown")
+        closed, closing = ex.fresh_bool("connection.closed"), ex.fresh_bool("connection.closing")
+        connected = ex.fresh_bool("connected")
+        conn_state = ex.choice("connector", ["none", "running", "finished"])
+        fut_state = ex.choice("reconnect_future", ["none", "pending"])
+        c = new_conn(M, ["10.0.0.1"])
+        c.closed, c.closing = closed, closing
+        if connected:
+            c.transport, c.protocol = object(), object()
+        c._connector = None if conn_state == "none" else FakeTask(conn_state)
+        fut = c._reconnect_future = None if fut_state == "none" else FakeFuture()
+        p = object.__new__(P.IpPairing)
+        p._shutdown, p.connection, p.description, p._accessories_state = shutdown, c, None, None
+        p.id = "aa:bb"
+        with Patched(M, lambda t_: None) as patched:
+            p._async_description_update(None)
+        woken = fut is not None and fut.done()
+        if shutdown:
+            ex.tag("after-shutdown")
+            ex.require(not patched.tasks and not woken, "after shutdown a zeroconf update starts no connector and wakes no back-off sleep")
+        else:
+            ex.tag("open")
+            if fut_state == "pending":
+                ex.require(woken and not patched.tasks, "an update wakes a waiting back-off sleep")
+            elif conn_state != "running" and not (connected and not closed):
+                ex.require(len(patched.tasks) == 1, "an update while disconnected starts the connector")
+        return ex.observe([len(patched.tasks), woken])
+    return h
+
+
 # ------------------------------------------------------------------ (d) hosts
 def hosts_unit(M):
     def h(ex):
@@ -695,6 +809,14 @@ def build(tier, mutate=None):
                       bounds={"entry": "pairing._ensure_connected / connection.ensure_connection", "connector": "none / running / finished", "event": WAIT_EVENTS,
                               "last connector error": "none / timeout / connection refused"},
                       regions=["no-wait"] + WAIT_EVENTS))
+    units.append(Unit("failed-setup/late-connection-lost", late_loss_unit(C), late_loss_unit(R),
+                      bounds={"set-up outcome": "every failing outcome of harness/c11.py", "then": "connection_lost of every socket the controller closed"},
+                      regions=["auth-failure", "retried-failure"]))
+    units.append(Unit("hosts/refresh-from-advertisement", host_refresh_unit(C), host_refresh_unit(R), split=True,
+                      bounds={"stored hosts": "7 lists over 3 addresses", "advertised": "none or 7 lists", "exclusions": "every subset"}, regions=["list-changed"]))
+    units.append(Unit("zeroconf-update/_async_description_update", description_update_unit(C, CP), description_update_unit(R, real_ipp), split=True,
+                      bounds={"flags": "shutdown, connection.closed, closing, connected", "connector": "none / running / finished", "back-off sleep": "none / pending"},
+                      regions=["after-shutdown", "open"]))
     units.append(Unit("hosts/_get_connect_hosts", hosts_unit(C), hosts_unit(R), bounds={"hosts": 3, "exclusions": "every subset"}, regions=["all-excluded"]))
     return units
 
